@@ -1230,7 +1230,12 @@ impl ConfigState {
             tags: front.tags.clone(),
         };
         let before = tcp_frontends.len();
-        if tcp_frontends.contains(&tcp_frontend) {
+        // a cluster has at most one frontend per address, whatever its tags:
+        // `remove_tcp_frontend` (like the worker) identifies it by address only
+        if tcp_frontends
+            .iter()
+            .any(|front| front.address == tcp_frontend.address)
+        {
             debug_assert_eq!(
                 tcp_frontends.len(),
                 before,
@@ -1297,7 +1302,11 @@ impl ConfigState {
             address: front.address.into(),
             tags: front.tags.clone(),
         };
-        if udp_frontends.contains(&udp_frontend) {
+        // same rule as for TCP frontends: one frontend per (cluster, address)
+        if udp_frontends
+            .iter()
+            .any(|front| front.address == udp_frontend.address)
+        {
             return Err(StateError::Exists {
                 kind: ObjectKind::UdpFrontend,
                 id: format!("{udp_frontend:?}"),
